@@ -655,6 +655,9 @@ pub fn drive_enc(spec: &EncSpec, mode: EncMode, source: &mut dyn OpSource, mut p
                         ));
                     }
                 }
+                if log_calls() {
+                    log_call(format!("chars {}..{} ({} units) cap={} kind={} last={} -> {} read={} written={} had_unmappables={} out={:02x?}", consumed_chars, visible, src_units, c.cap_used, offer.kind, last, c.res.name(), c.read, c.written, c.had_unmappables, c.out));
+                }
                 let t = &mut run.transcript;
                 t.usize(src_units);
                 t.usize(cap);
